@@ -136,6 +136,7 @@ PROPS["C07"] = dict(
         H("c07_window::c07_dir_b0_c2", instance="{}/a base 0 count 2 (index in a directory component)", symbolic="window state, bystander", bound="unwind 8", **_c07_common),
         H("c07_window::c07_dirfile_b0_c2", instance="{}/a.{} base 0 count 2 (index in a directory component AND in the file name)", symbolic="window state, bystander", bound="unwind 10", **_c07_common),
         H("c07_window::c07_dirfile_b1_c3", tier="thorough", instance="{}/a.{} base 1 count 3", symbolic="window state", bound="unwind 10", **_c07_common),
+        H("c07_window::c07_file_bmax_c1", instance="a.{} base u32::MAX count 1 (top of the index range; class of the fixed finding)", symbolic="existence of the archive", bound="unwind 16", **_c07_common),
         H("c07_window::c07_file_b0_c3", tier="thorough", instance="a.{} base 0 count 3", symbolic="window state", bound="unwind 8", **_c07_common),
         H("c07_window::c07_file_b3_c2", tier="thorough", instance="a.{} base 3 count 2", symbolic="window state", bound="unwind 8", **_c07_common),
         H("c07_window::c07_file_b0_c2_two_rolls", tier="thorough", instance="a.{} base 0 count 2, 2 successive rolls", symbolic="window state", bound="unwind 8", **_c07_common),
@@ -152,7 +153,9 @@ PROPS["C07"] = dict(
 # does not propagate constants: without a bound per function the phantom levels multiply)
 def TREE_REC(depth):
     return [(r"^log4rs::ConfiguredLogger::add$", None, depth + 1),
-            (r"^log4rs::ConfiguredLogger::max_log_level$", None, depth + 1)]
+            (r"^log4rs::ConfiguredLogger::max_log_level$", None, depth + 1),
+            # the harness' own loops over the target pool (up to 16 targets) and the declarations
+            (r"^c01_tree::body2$", "*", 20)]
 
 _tree = dict(timeout=1500, mem_gb=10)
 _T_SMALL = "targets a, a::b, a::bc, a::b::c, x, '', 'a:', 'a:::b'"
@@ -166,7 +169,7 @@ _tree_harnesses = [
     H("c01_tree::tree_a_ab", instance="declared: a, a::b (descend into an existing child)", symbolic=_tree_sym, bound="unwind 9", unwindset=TREE_REC(2), **_tree),
     H("c01_tree::tree_ana_ab", instance="declared: a(non-additive), a::b(additive): chain broken above", symbolic=_tree_sym, bound="unwind 9", unwindset=TREE_REC(2), **_tree),
     H("c01_tree::tree_sib", instance="declared: a::b, a::bc(non-additive): textual-not-component prefix", symbolic=_tree_sym, bound="unwind 9", unwindset=TREE_REC(2), **_tree),
-    H("c01_tree::tree_ab_na", tier="thorough", instance="declared: a::b(non-additive); root 2 att", symbolic=_tree_sym, bound="unwind 9", unwindset=TREE_REC(2), **_tree),
+    H("c01_tree::tree_ab_na", instance="declared: a::b(non-additive); root 2 att (implied intermediate created for a non-additive logger)", symbolic=_tree_sym, bound="unwind 9", unwindset=TREE_REC(2), **_tree),
     H("c01_tree::tree_a_ab_na", tier="thorough", instance="declared: a, a::b(non-additive)", symbolic=_tree_sym, bound="unwind 9", unwindset=TREE_REC(2), **_tree),
     H("c01_tree::tree_a_abc", tier="thorough", instance="declared: a, a::b::c (implied a::b below a declared a)", symbolic=_tree_sym, bound="unwind 9", unwindset=TREE_REC(3), **_tree),
     H("c01_tree::tree_ana_abc", tier="thorough", instance="declared: a(non-additive), a::b::c (0 att)", symbolic=_tree_sym, bound="unwind 9", unwindset=TREE_REC(3), **_tree),
@@ -221,8 +224,8 @@ PROPS["C02"] = dict(
         H("c01_tree::max_a", instance="root + a", symbolic="all levels", bound="unwind 6, recursion 2", unwindset=TREE_REC(1), **_max),
         H("c01_tree::max_a_witness", kind="witness", unwindset=TREE_REC(1), **_max),
         H("c01_tree::max_ab", instance="root + a::b (implied a)", symbolic="all levels", bound="unwind 6, recursion 3", unwindset=TREE_REC(2), **_max),
-        H("c01_tree::max_a_ba", instance="root + a + b::a", symbolic="all levels", bound="unwind 6, recursion 3", unwindset=TREE_REC(2), **_max),
-        H("c01_tree::max_a_ab", tier="thorough", instance="root + a + a::b", symbolic="all levels", bound="unwind 6, recursion 3", unwindset=TREE_REC(2), timeout=3600, mem_gb=14),
+        H("c01_tree::max_a_ba", tier="thorough", instance="root + a + b::a", symbolic="all levels", bound="unwind 6, recursion 3", unwindset=TREE_REC(2), timeout=3600, mem_gb=20),
+        H("c01_tree::max_a_ab", instance="root + a + a::b (a declared intermediate may be quieter than its parent and its child)", symbolic="all levels", bound="unwind 6, recursion 3", unwindset=TREE_REC(2), timeout=1800, mem_gb=12),
         H("c01_tree::max_sib", tier="thorough", instance="root + a::b + a::bc", symbolic="all levels", bound="unwind 8, recursion 3", unwindset=TREE_REC(2), timeout=3600, mem_gb=14),
         H("c01_tree::max_3chain", tier="thorough", instance="root + a + a::b + a::b::c", symbolic="all levels", bound="unwind 8, recursion 4", unwindset=TREE_REC(3), timeout=3600, mem_gb=14),
         # enabled() on the routing instances
@@ -641,35 +644,31 @@ PROPS["C18"]["harnesses"] += [
 
 _f = dict(timeout=1800, mem_gb=12, unwindset=HARNESS_LOOPS + BT_LOOPS)
 PROPS["C08"] = dict(
-    functions=["fixed_window::rotate (door-opener FixedWindowRoller::verif_rotate: what roll() runs, before the anyhow conversion)", "fixed_window::move_file",
-               "<RollingFileAppender as Append>::append", "RollingFileAppender::get_writer", "LogFile::roll"],
-    bounds="roller level: count 2 and 3, base 0, every initial window state, EVERY file-system step of the rotation as the step "
-           "that fails and (independently) as the point of process death (crash image taken at the guarded callback before the step), "
-           "followed by one more roll after the failure; appender level: three appends where the second one's roll is obstructed (a "
-           "non-empty directory at the archive name), pre- and post-processing policy, append mode (truncate mode: recorded finding)",
-    outside="counts above 3, base > 0, the copy+remove fallback failing half way, compression, failures of the write path itself, "
-            "a restarted (rebuilt) appender after the failure",
-    assumptions=_fs_assumptions + [
-        "hook verif_hooks::rotate_step: a callback point before every file-system step of rotate(); the harness uses it to take the "
-        "crash image and to make exactly that step fail with a non-NotFound error (same mechanism under Kani and natively)",
-        "roller level reaches anyhow conversions: <anyhow::Error as From<io::Error>>::from is NOT cut there"],
-    level_text="Bounded model checking with the failing step and the crash point as solver variables: the failing roll returns an "
-               "error (no reachable panic), at the crash point and after the failure every file the completed rotation would retain is "
-               "still on disk, whole, and oldest-to-newest reading never goes back in age; the same roller then completes a rotation. "
-               "Appender level: the failing append returns Err, the next append succeeds and the record acknowledged before the failed "
-               "rotation is still in the active file ahead of the new one.",
-    level_note="Trusted: Kani/CBMC/CaDiCaL, E3/E4. A step is made to fail before it has any effect (rename is atomic).",
-    design_ref="DESIGN.md section 5, C08",
+    functions=["fixed_window::rotate (door-opener FixedWindowRoller::verif_rotate: what roll() runs, before the anyhow conversion)",
+               "fixed_window::move_file", "Compression::compress (None)", "append::env_util::expand_env_vars (as called by rotate)"],
+    bounds="fixed-window roller with base 0 and count 1, 2, 3; every initial window state; EVERY file-system step of the rotation as "
+           "the step that fails (or none) and, independently, as the point of process death (crash image taken at the guarded callback "
+           "before the step); followed by one more rotation of the same roller after the failure",
+    outside="the appender half (the failing append returns an error, the same or a restarted appender resumes): RollingFileAppender::append "
+            "does not fit the solver (DESIGN.md 9.6) - the defect found there by the native twin is fixed; counts above 3, base > 0, the "
+            "copy+remove fallback failing half way, compression",
+    assumptions=[
+        "E4 model file system (rename / copy / remove_file / create_dir_all), E6 environment table",
+        "hook verif_hooks::rotate_step: a callback point before every file-system step of rotate(); the harness uses it to take the crash "
+        "image and to make exactly that step fail with a non-NotFound error, before the step has any effect (same mechanism natively)",
+        "hook FixedWindowRoller::{verif_new, verif_rotate}; <anyhow::Error as From<io::Error>>::from is cut (rotate returns io::Result)",
+    ],
+    level_text="Bounded model checking with the failing step and the crash point as solver variables: the failing rotation returns an "
+               "error and no check fails (any reachable panic is a failed obligation); at the crash point and after the failure every "
+               "file the completed rotation would retain is still on disk, whole, and oldest-to-newest reading never goes back in age; "
+               "the same roller then completes a rotation and the rolled file is the newest archive.",
+    level_note="Trusted: Kani/CBMC/CaDiCaL, E4. Only the roller half of C08 is decided.",
+    design_ref="DESIGN.md section 5, C08 and 9.6",
     harnesses=[
-        H("c08_faults::fault_roller_c1", instance="roller, count 1 (one step: the final move)", symbolic="window state, failing step or none, crash point", bound="unwind 8", **_f),
+        H("c08_faults::fault_roller_c1", instance="count 1 (one step: the final move)", symbolic="window state, failing step or none, crash point", bound="unwind 8", **_f),
         H("c08_faults::fault_roller_c1_witness", kind="witness", **_f),
-        H("c08_faults::fault_roller_c2", tier="thorough", instance="roller, count 2", symbolic="window state, failing step 0..1 or none, crash point 0..1", bound="unwind 8", timeout=3600, mem_gb=14, unwindset=HARNESS_LOOPS + BT_LOOPS),
-        H("c08_faults::fault_roller_c2_witness", tier="thorough", kind="witness", timeout=3600, mem_gb=14, unwindset=HARNESS_LOOPS + BT_LOOPS),
-        H("c08_faults::fault_roller_c3", tier="thorough", instance="roller, count 3", symbolic="window state, failing step 0..2 or none, crash point 0..2", bound="unwind 8", timeout=3600, mem_gb=14, unwindset=HARNESS_LOOPS + BT_LOOPS),
-        H("c08_faults::fault_appender_post", instance="appender, post-processing policy, append mode", symbolic="record lengths", bound="unwind 10", **_f),
-        H("c08_faults::fault_appender_post_witness", kind="witness", **_f),
-        H("c08_faults::fault_appender_pre", tier="thorough", instance="appender, pre-processing policy, append mode", symbolic="record lengths", bound="unwind 10", timeout=3600, mem_gb=14, unwindset=HARNESS_LOOPS + BT_LOOPS),
-        H("c08_faults::fault_appender_post_known", kind="finding", instance="appender, post-processing policy, truncate mode (class of the recorded finding)", symbolic="record lengths", bound="unwind 10", **_f),
+        H("c08_faults::fault_roller_c2", instance="count 2", symbolic="window state, failing step 0..1 or none, crash point 0..1", bound="unwind 8", **_f),
+        H("c08_faults::fault_roller_c3", tier="thorough", instance="count 3", symbolic="window state, failing step 0..2 or none, crash point 0..2", bound="unwind 8", timeout=3600, mem_gb=14, unwindset=HARNESS_LOOPS + BT_LOOPS),
     ],
 )
 
@@ -678,7 +677,7 @@ PROPS["C08"] = dict(
 # What is claimed.  Harness groups that the solver could not finish within the caps are kept in
 # the harness crate (and below, under PENDING) for the record, but are not part of any check.
 PENDING = {}
-for _pid in ["C04", "C05", "C19", "C09", "C10", "C12", "C15", "C08"]:
+for _pid in ["C04", "C05", "C19", "C09", "C10", "C12"]:
     PENDING[_pid] = PROPS.pop(_pid)
 
 # C06 / C17: only the trigger units fit; the appender-level harnesses (c05_rolling::*) did not
@@ -719,5 +718,4 @@ NOT_APPLICABLE.update({
     "C12": "JsonEncoder::encode_inner (serde_json + chrono formatting + fmt machinery over heap buffers) was still in symbolic execution after 15 min / 4 GB for a 1-unit message (DESIGN.md 9.6)",
     "C15": "the public path Config::builder -> Logger::new_with_err_handler -> log with the ArcSwap model: see DESIGN.md 9.6 for the measurement; the reloader half needs serde_yaml + threads",
     "C19": "expand_env_vars builds Strings on the heap; every copy has a solver-side symbolic size: 20 s of symbolic execution, then > 12 GB in the SSA-to-SAT conversion for the 12-byte path '/a/$ENV{A}/b' (DESIGN.md 9.6); the defect found by the native twin is fixed",
-    "C08": "pending measurement of the roller-level harness (DESIGN.md 9.6)",
 })
